@@ -181,6 +181,14 @@ def _cases_class(tier, rng):
                        ("get", tuple(rng.randrange(d) for d in fs)), ("get_from_index", 0)]
                 for backend in BACKENDS:
                     yield {"backend": backend, "shape": shape, "internal": internal, "mask": mask, "ops": ops}
+        # ... and twice in a row (the file system may hand the first file's identity to the third): the last value counts
+        for n1, n2, n3 in ((10, 15, 20), (11, 16, 26), (12, 17, 22)):
+            for read in ("to_array", "get_from_index"):
+                r1 = (read,) if read == "to_array" else ("get_from_index", 0)
+                ops = [("dump", k, n1), r1, ("dump", k, n2), ("dump", k, n3), r1, ("to_array_unsplat",),
+                       ("get", tuple(rng.randrange(d) for d in fs))]
+                for backend in BACKENDS:
+                    yield {"backend": backend, "shape": shape, "internal": internal, "mask": mask, "ops": ops}
         # ... and a failed dump onto a written element (int key, and a slice key covering it) leaves it as it was
         for fk in (k, tuple(slice(None) for _ in shape)):
             yield {"backend": "file_array", "shape": shape, "internal": internal, "mask": mask,
